@@ -18,6 +18,7 @@ EXTERNAL_SIGS = {'filter_signal': 'neurodsp.filt.filter_signal', 'compute_filter
 
 
 def check(rep, model, tier):
+    _doc_defaults(rep, model)
     rep.rule('ROW-OFFSETS', 'compute_cyclepoints == reference: with extrema P0<T0<P1<..., row i = (last side T_i, previous decay midpoint D_i, rise midpoint R_i, centre P_(i+1), '
                             'decay midpoint D_(i+1), next side T_(i+1)); last/next side (and last/current decay midpoint) are the offset-0 / offset-1 slices of ONE array, so '
                             'consecutive rows share their side extremum')
@@ -103,7 +104,7 @@ def check(rep, model, tier):
                           found='; '.join(f'{c}' + (f' [via {v}]' if v else '') for _, c, v in hits[:3]) + ': a later call with the same dictionary runs with different options')
         else:
             rep.ok('OPTIONS-STABLE', name, f'{fn.path}:{fn.node.lineno} {name}', found='no write through an option dictionary')
-    rep.rules = {k: v for k, v in rep.rules.items() if k in ('ROW-OFFSETS', 'PAIRING', 'OPT-EXCL', 'OPT-FORWARD', 'WINDOW-TILING', 'EFF-ROVIEW', 'CALL-BIND', 'MID-LOCAL', 'BOUNDARY', 'CROSSING')}
+    rep.rules = {k: v for k, v in rep.rules.items() if k in ('DOC-DEFAULT', 'ROW-OFFSETS', 'PAIRING', 'OPT-EXCL', 'OPT-FORWARD', 'WINDOW-TILING', 'EFF-ROVIEW', 'CALL-BIND', 'MID-LOCAL', 'BOUNDARY', 'CROSSING')}
     rep.rule('OPTIONS-STABLE', 'compute_features / compute_shape_features never write to the find_extrema_kwargs dictionary they are given (the one carrying boundary), so the '
                                'requested boundary holds on every call that reuses it (shared with C15)')
     rep.floors = {k: v for k, v in rep.floors.items() if k in ('call sites bound',)}
@@ -292,3 +293,8 @@ def call_bind(rep, model):
     if not bad:
         rep.ok('CALL-BIND', 'package', '-', found=f'{n} resolved call sites bind against their callee')
     rep.floor('call sites bound', n, 80)
+
+
+def _doc_defaults(rep, model):
+    from . import common as _c
+    _c.doc_defaults(rep, model, ['compute_features', 'compute_cyclepoints'])
